@@ -185,6 +185,13 @@ BDD_OP_MUTS.update({
  'terminal_not_recorded': (B, "            BDDTerminalNode.Tnodes[value] = node\n", "", ['BDDTerminalNode.__new__']),
  'terminal_reset_no_value': (B, "        super(BDDTerminalNode, self).__reset__()\n        self.value = value", "        super(BDDTerminalNode, self).__reset__()\n        self.value = True", ['BDDTerminalNode.__reset__']),
 })
+BDD_OP_MUTS.update({
+ 'desc_no_high': (B, "                stack.append(node.low)\n                stack.append(node.high)\n\n    return desc", "                stack.append(node.low)\n\n    return desc", ['descendents']),
+ 'desc_ignores_checked': (B, "        if node not in desc and node not in checked:\n            desc.add(node)\n\n            if (isinstance(node, BDDNonTerminalNode)):", "        if node not in desc:\n            desc.add(node)\n\n            if (isinstance(node, BDDNonTerminalNode)):", ['descendents']),
+ 'desc_adds_children_directly': (B, "                stack.append(node.low)\n                stack.append(node.high)\n\n    return desc", "                desc.add(node.low)\n                stack.append(node.high)\n\n    return desc", ['descendents']),
+ 'variables_of_terminals': (B, "                    if isinstance(node, BDDNonTerminalNode)])", "                    if isinstance(node, BDDTerminalNode)])", ['BDDNode.variables']),
+ 'variables_of_self_only': (B, "        return set([node.var for node in self.descendents()\n                    if isinstance(node, BDDNonTerminalNode)])", "        return set([node.var for node in [self]\n                    if isinstance(node, BDDNonTerminalNode)])", ['BDDNode.variables']),
+})
 O = 'BDD/OBDD.py'
 BDD_OP_MUTS.update({
  'node_restrict_one_is_false': (B, "            if value == 1:\n                value = True", "            if value == 1:\n                value = False", ['BDDNode.restrict']),
